@@ -400,3 +400,32 @@ Proof.
 Qed.
 
 End OpsProofs.
+
+(* the three proved cases of the order invariant, as one statement (Properties/C07.v C07_order_inv_partial) *)
+Lemma order_inv_partial :
+  forall (T : tables) (LATEST : N), SpecWF T ->
+  (forall (h : id) (n : node) (v name : N) (w : world) (pos : N) (c : id) (w' : world) (items : list (option N)),
+     w_nodes w h = Some n -> w_nodes w (w_next w) = None ->
+     min_version LATEST h w = Val (OK v, w) ->
+     items_of w (n_content n) = Some items -> Ordered T (n_type n) v items ->
+     e_create_sub_element_at T LATEST h name pos w = Val (OK c, w') ->
+     exists n' : node,
+       w_nodes w' h = Some n' /\ n_type n' = n_type n /\
+       items_of w' (n_content n') = Some (ins items (N.to_nat pos) (Some name)) /\
+       Ordered T (n_type n) v (ins items (N.to_nat pos) (Some name))) /\
+  (forall (h : id) (n : node) (v name : N) (w : world) (c : id) (w' : world) (items : list (option N)),
+     w_nodes w h = Some n -> w_nodes w (w_next w) = None ->
+     min_version LATEST h w = Val (OK v, w) ->
+     items_of w (n_content n) = Some items -> Ordered T (n_type n) v items ->
+     e_create_sub_element T LATEST h name w = Val (OK c, w') ->
+     exists (n' : node) (items' : list (option N)),
+       w_nodes w' h = Some n' /\ n_type n' = n_type n /\
+       items_of w' (n_content n') = Some items' /\ Ordered T (n_type n) v items') /\
+  (forall (ty : etype) (v : N) (items : list (option N)) (k : nat),
+     Ordered T ty v items -> Ordered T ty v (remove_at items k)).
+Proof.
+  intros T LATEST WF. split; [|split].
+  - exact (create_at_order_inv T LATEST WF).
+  - exact (create_order_inv T LATEST WF).
+  - exact (remove_order_inv T).
+Qed.
